@@ -14,7 +14,11 @@ CONSTANTS
   DedupAtPop,        \* TRUE: an address already queried is never popped again (what C04 requires)
   CaptureUnderLock,  \* TRUE: the run loop takes the condition channel before unlocking (the code);
                      \* FALSE: racy variant used as a generator of attack schedules / vacuity guard
-  TraceMode          \* TRUE in Trace_Traversal: wake-ups are silent steps folded into the next event
+  TraceMode,         \* TRUE in Trace_Traversal: wake-ups are silent steps folded into the next event
+  Strict             \* TRUE: every guard is enforced (MC, strict conformance).  FALSE (trace validation,
+                     \* second pass after a strict rejection): the state follows what the code logged and
+                     \* only the property invariants judge it, so that a deviation the properties are
+                     \* silent about is reported as a deviation, not as a violation
 
 NoId == -1
 NoResp == [ok |-> FALSE, id |-> NoId, dok |-> FALSE, nodes |-> {}]
@@ -52,7 +56,10 @@ Full == Cardinality(closest) >= cfg.k
 FarDist == IF closest = {} THEN -1
            ELSE LET ds == {Dist(e.id) : e \in closest} IN CHOOSE m \in ds : \A d \in ds : d <= m
 
-Poppable == IF DedupAtPop THEN {c \in unq : c.addr \notin queried} ELSE unq
+\* Candidates whose address was queried (under another ID) after they were added.  The code
+\* discards them lazily when they reach the head of the frontier; they are never popped.
+Stale == {c \in unq : c.addr \in queried}
+Poppable == IF DedupAtPop THEN unq \ Stale ELSE unq
 HaveQueryOf(P) == IF P = {} THEN FALSE
                   ELSE IF ~Full THEN TRUE
                   ELSE \E c \in Minimal(P) : c.id # NoId /\ Dist(c.id) <= FarDist
@@ -70,7 +77,8 @@ Broadcast == runSig' = TRUE /\ stpSig' = TRUE
 
 \* the run loop may act under the lock
 CanIter == IF TraceMode
-           THEN run.pc \in {"check", "iter"} \/ (run.pc = "select" /\ (runSig \/ stopping \/ run.offer))
+           THEN run.pc \in {"check", "iter"}
+                \/ (run.pc = "select" /\ (runSig \/ stopping \/ run.offer))
            ELSE run.pc = "iter"
 
 -----------------------------------------------------------------------------
@@ -79,6 +87,14 @@ AddNode(c) ==
   /\ unq' = IF AddOK(c) THEN unq \cup {c} ELSE unq
   /\ learned' = learned \cup {c}
   /\ IF AddOK(c) THEN Broadcast ELSE UNCHANGED <<runSig, stpSig>>
+  /\ UNCHANGED <<cfg, queried, closest, qs, stopping, stopped, run, stp, cons, offered, qcount, responders, eligible>>
+
+\* the same step with the outcome the code logged (trace validation)
+AddNodeAs(c, res) ==
+  /\ Strict => AddRes(c) = res
+  /\ unq' = IF res = "added" THEN unq \cup {c} ELSE unq
+  /\ learned' = learned \cup {c}
+  /\ IF res = "added" THEN Broadcast ELSE UNCHANGED <<runSig, stpSig>>
   /\ UNCHANGED <<cfg, queried, closest, qs, stopping, stopped, run, stp, cons, offered, qcount, responders, eligible>>
 
 \* a whole AddNodes call is one critical section
@@ -99,11 +115,15 @@ RunExit ==
   /\ run' = [pc |-> "done", offer |-> FALSE]
   /\ UNCHANGED <<cfg, unq, queried, closest, qs, stopping, stopped, runSig, stp, stpSig, cons, offered, qcount, learned, responders, eligible>>
 
-\* startQuery: pop the closest candidate, mark its address queried, count it in flight
+\* startQuery: pop the closest candidate, mark its address queried, count it in flight.
+\* In TraceMode a stale candidate is followed too (the step is what the code did); the
+\* invariant OncePerAddr then reports it.
 StartQuery(c) ==
   /\ CanIter
-  /\ Outstanding < cfg.alpha /\ HaveQuery
-  /\ c \in Minimal(Poppable)
+  /\ c \in unq
+  /\ TraceMode \/ Outstanding < cfg.alpha          \* in a trace AlphaBound reports it
+  /\ Strict => LET P == IF TraceMode /\ c.addr \in queried THEN unq ELSE Poppable IN
+                 HaveQueryOf(P) /\ c \in Minimal(P)
   /\ unq' = unq \ {c}
   /\ queried' = queried \cup {c.addr}
   /\ qs' = qs \cup {[addr |-> c.addr, cid |-> c.id, n |-> qcount[c.addr] + 1, ph |-> "fly", cx |-> FALSE, resp |-> NoResp]}
@@ -119,6 +139,15 @@ RunEval ==
      /\ run' = [pc |-> IF CaptureUnderLock THEN "select" ELSE "capture", offer |-> off]
      /\ offered' = (offered \/ (off /\ cons = "waiting"))
   /\ runSig' = IF CaptureUnderLock THEN FALSE ELSE runSig
+  /\ UNCHANGED <<cfg, unq, queried, closest, qs, stopping, stopped, stp, stpSig, cons, qcount, learned, responders, eligible>>
+
+\* the same step with the decision the code logged (trace validation)
+RunEvalAs(off) ==
+  /\ CanIter
+  /\ Strict => (~(Outstanding < cfg.alpha /\ HaveQuery) /\ off = (~HaveQuery /\ Outstanding = 0))
+  /\ run' = [pc |-> "select", offer |-> off]
+  /\ offered' = (offered \/ (off /\ cons = "waiting"))
+  /\ runSig' = FALSE
   /\ UNCHANGED <<cfg, unq, queried, closest, qs, stopping, stopped, stp, stpSig, cons, qcount, learned, responders, eligible>>
 
 \* racy variant only: the condition channel is taken after the lock was released
@@ -176,6 +205,20 @@ PostClosest(q) ==
   /\ qs' = (qs \ {q}) \cup {[q EXCEPT !.ph = "nodes"]}
   /\ UNCHANGED <<cfg, unq, queried, stopping, stopped, run, runSig, stp, stpSig, cons, offered, qcount, learned>>
 
+\* the same step with the flags and the resulting set the code logged (trace validation)
+PostClosestAs(q, nodeOk, dataOk, newClosest) ==
+  /\ q \in qs /\ q.ph = "closest"
+  /\ LET e == [id |-> q.resp.id, addr |-> q.addr]
+         ok == NodeOK([addr |-> q.addr, id |-> q.resp.id]) /\ q.resp.dok IN
+     /\ responders' = responders \cup {e}
+     /\ eligible' = IF ok THEN eligible \cup {e} ELSE eligible
+     /\ Strict => /\ nodeOk = NodeOK([addr |-> q.addr, id |-> q.resp.id])
+                  /\ nodeOk => (dataOk = q.resp.dok)
+                  /\ IF ok THEN newClosest \in Push(closest, e) ELSE newClosest = closest
+  /\ closest' = newClosest
+  /\ qs' = (qs \ {q}) \cup {[q EXCEPT !.ph = "nodes"]}
+  /\ UNCHANGED <<cfg, unq, queried, stopping, stopped, run, runSig, stp, stpSig, cons, offered, qcount, learned>>
+
 \* AddNodes(res.Nodes); AddNodes(res.Nodes6) -- merged: both are plain frontier insertions
 PostNodes(q) ==
   /\ q \in qs /\ q.ph = "nodes"
@@ -184,9 +227,11 @@ PostNodes(q) ==
   /\ qs' = (qs \ {q}) \cup {[q EXCEPT !.ph = "done"]}
   /\ UNCHANGED <<cfg, queried, closest, stopping, stopped, run, stp, cons, offered, qcount, learned, responders, eligible>>
 
-\* deferred completion: outstanding--, broadcast
+\* deferred completion: outstanding--, broadcast.  In TraceMode the frontier insertions were
+\* logged one by one as AddNode events, so the query is still in phase "nodes" (or "closest" if
+\* DoQuery reported no responder... then it went straight to "nodes").
 PostDone(q) ==
-  /\ q \in qs /\ q.ph = "done"
+  /\ q \in qs /\ q.ph = (IF TraceMode THEN "nodes" ELSE "done")
   /\ qs' = qs \ {q}
   /\ Broadcast
   /\ UNCHANGED <<cfg, unq, queried, closest, stopping, stopped, run, stp, cons, offered, qcount, learned, responders, eligible>>
